@@ -22,6 +22,8 @@ DATA_METHODS = TB.STR_METHODS | TB.LIST_METHODS | TB.DICT_METHODS | {
     '__str__', '__repr__', '__format__',
     # bytes / bytearray data methods
     'decode', 'hex',
+    # set algebra (new sets; the in-place forms are not listed)
+    'union', 'intersection', 'difference', 'symmetric_difference', 'issubset', 'issuperset', 'isdisjoint',
     # methods of compiled regular expressions (pure computation; their timeout discipline is C05's business)
     'search', 'match', 'fullmatch', 'findall', 'finditer', 'sub', 'subn',
     'create_decimal', 'create_decimal_from_float', 'to_integral', 'to_integral_exact'}
@@ -653,6 +655,10 @@ def _r4(chk: Check, R4: str) -> None:
         for n in ast.walk(fi.node):
             if isinstance(n, (ast.Import, ast.ImportFrom)):
                 forbidden.setdefault('import at line %d' % n.lineno, (n.lineno, 'import statement inside a reachable function body'))
+            if isinstance(n, ast.Call) and isinstance(n.func, ast.Name) and n.func.id == 'setattr':
+                rec_ = F.__dict__.get('_setattr_nodes', {}).get(id(n))
+                if rec_ and rec_[0] is n and rec_[1] is True:
+                    continue            # constant attribute names on every path: plain attribute stores
             if isinstance(n, ast.Call) and isinstance(n.func, ast.Name) and n.func.id in TB.FORBIDDEN_BUILTINS \
                     and F.resolve_name(fi.module, n.func.id)[0] == 'builtin' and n.func.id != 'super':
                 forbidden.setdefault('`%s`' % norm(n), (n.lineno, 'builtin %s' % n.func.id))
